@@ -857,6 +857,10 @@ Hdupdd(int32  file_id, /* IN: File ID the tag/refs are in */
     if (BADFREC(file_rec))
         HGOTO_ERROR(DFE_ARGS, FAIL);
 
+    /* a new DD can only be added to a file opened for writing */
+    if (!(file_rec->access & DFACC_WRITE))
+        HGOTO_ERROR(DFE_DENIED, FAIL);
+
     /* Attach to the old DD in the file */
     if ((old_dd = HTPselect(file_rec, old_tag, old_ref)) == FAIL)
         HGOTO_ERROR(DFE_NOMATCH, FAIL);
@@ -1185,6 +1189,10 @@ HDreuse_tagref(int32  file_id, /* IN: id of file */
     if (BADFREC(file_rec) || tag == DFTAG_WILDCARD || ref == DFREF_WILDCARD)
         HGOTO_ERROR(DFE_ARGS, FAIL);
 
+    /* the DD can only be changed in a file opened for writing */
+    if (!(file_rec->access & DFACC_WRITE))
+        HGOTO_ERROR(DFE_DENIED, FAIL);
+
     /* look for the dd to reuse */
     if ((ddid = HTPselect(file_rec, tag, ref)) == FAIL)
         HGOTO_ERROR(DFE_NOMATCH, FAIL);
@@ -1243,6 +1251,10 @@ Hdeldd(int32 file_id, uint16 tag, uint16 ref)
     file_rec = HAatom_object(file_id);
     if (BADFREC(file_rec) || tag == DFTAG_WILDCARD || ref == DFREF_WILDCARD)
         HGOTO_ERROR(DFE_ARGS, FAIL);
+
+    /* the DD can only be deleted from a file opened for writing */
+    if (!(file_rec->access & DFACC_WRITE))
+        HGOTO_ERROR(DFE_DENIED, FAIL);
 
     /* look for the dd to delete */
     if ((ddid = HTPselect(file_rec, tag, ref)) == FAIL)
